@@ -180,6 +180,13 @@ std::string compare_with_reference(Ctx& c, const TypeOps& t, const Bytes& bytes,
   LibRead lib = lib_read(t, bytes, handles);
   c.rep.evaluations++;
   if (ref.dup_skipped_ids) { c.rep.exclude("duplicate unknown/deleted table id (no expectation stated)"); return ""; }
+  if (!t.has_handle) {
+    // the decoder's language does not depend on which buffer reader carries the bytes
+    ReaderBox rb; rb.open(R_Buf, bytes);
+    auto ob = t.make(); int sb = ob->read(rb);
+    if ((sb == 0) != ref.ok) return fmt("accept-mismatch: library via BufferReader %s (%s), reference %s (%s at %zu); input %s [%s]", sb == 0 ? "accepts" : "rejects", err_name(sb), ref.ok ? "accepts" : "rejects", err_name(ref.err), ref.err_off, hex(bytes).substr(0, 200).c_str(), how.c_str());
+    if (ref.ok && rb.position() != ref.consumed) return fmt("consumed-mismatch: BufferReader consumed %zu, reference %zu; input %s [%s]", rb.position(), ref.consumed, hex(bytes).substr(0, 200).c_str(), how.c_str());
+  }
   if ((lib.status == 0) != ref.ok)
     return fmt("accept-mismatch: library %s (%s), reference %s (%s at %zu); input %s [%s]", lib.status == 0 ? "accepts" : "rejects", err_name(lib.status), ref.ok ? "accepts" : "rejects", err_name(ref.err), ref.err_off, hex(bytes).substr(0, 200).c_str(), how.c_str());
   if (ref.ok) {
@@ -231,45 +238,55 @@ std::string body_C04(Ctx& c, CaseIn& in) {
 
 // Exhaustive prefix sweeps: every one of the 256 byte values at the prefix position of every
 // field of the valid encoding of a few values per type, with a payload of the matching width.
+static size_t sweep_values(Ctx& c, const TypeOps& t) { auto vs = variants(*t.schema); return std::min<size_t>(vs.size(), c.thorough ? 12 : 4); }
+static Value sweep_value(Ctx& c, const TypeOps& t, size_t vi) {
+  auto vs = variants(*t.schema); size_t nvals = sweep_values(c, t);
+  const Value& v0 = vs[(vi * std::max<size_t>(1, vs.size() / nvals)) % vs.size()];
+  auto o = t.make(); o->assign(v0); return o->get();
+}
+// One sweep case: value #vi of type t, field #fi of its encoding, prefix byte b.
+std::string sweep_one(Ctx& c, const TypeOps& t, size_t vi, size_t fi, int b, bool* interesting) {
+  Value v = sweep_value(c, t, vi);
+  Encoded base = ref_encode(*t.schema, v);
+  if (fi >= base.fields.size()) return "";
+  const Field& f = base.fields[fi];
+  if (f.kind == F::EntrySize) return "";   // entry sizes are swept by the size-delta mutation
+  auto ht = default_handle_table(*t.schema, v);
+  EncodeOpts eo; Override ov;
+  if (f.kind == F::Prefix) { ov.what = Override::SetPrefixByte; ov.value = (uint64_t)b; }
+  else {
+    ov.what = Override::RawBytes; ov.raw.push_back((uint8_t)b);
+    int w = 0; if (b >= P_U8 && b <= P_I64) w = cls_width(C_U8 + (b - P_U8)); else if (b == P_F32) w = 4; else if (b == P_F64) w = 8;
+    for (int k = 0; k < w; k++) ov.raw.push_back(uint8_t(f.value >> (8 * k)));
+  }
+  eo.overrides[fi] = ov;
+  Encoded e = ref_encode(*t.schema, v, eo);
+  bool nc = false, rj = false;
+  std::string how = fmt("field %zu (%s) prefix byte %02x", fi, fkind_name(f.kind), b);
+  std::string m = compare_with_reference(c, t, e.bytes, ht, true, how, &nc, &rj);
+  if (!m.empty()) return m + "  [value " + to_text(*t.schema, v) + "]";
+  if ((nc || rj) && interesting) { *interesting = true; c.rep.nontriv(bytes_hash(t, e.bytes)); }
+  return "";
+}
 void extra_C04(Ctx& c) {
   for (size_t ti = 0; ti < c.types.size(); ti++) {
     const TypeOps& t = c.types[ti];
     if (!c.args.get("type").empty() && t.name != c.args.get("type")) continue;
-    auto vs = variants(*t.schema);
-    size_t nvals = std::min<size_t>(vs.size(), c.thorough ? 12 : 4);
-    for (size_t vi = 0; vi < nvals; vi++) {
-      // spread over the variant list
-      const Value& v0 = vs[(vi * std::max<size_t>(1, vs.size() / nvals)) % vs.size()];
-      auto o = t.make(); o->assign(v0); Value v = o->get();
-      Encoded base = ref_encode(*t.schema, v);
-      auto ht = default_handle_table(*t.schema, v);
-      size_t nf = std::min<size_t>(base.fields.size(), c.thorough ? 64 : 24);
-      for (size_t fi = 0; fi < nf; fi++) {
-        const Field& f = base.fields[fi];
-        for (int b = 0; b < 256; b++) {
-          EncodeOpts eo; Override ov;
-          if (f.kind == F::Prefix) { ov.what = Override::SetPrefixByte; ov.value = (uint64_t)b; }
-          else {
-            ov.what = Override::RawBytes; ov.raw.push_back((uint8_t)b);
-            int w = 0; if (b >= P_U8 && b <= P_I64) w = cls_width(C_U8 + (b - P_U8)); else if (b == P_F32) w = 4; else if (b == P_F64) w = 8;
-            for (int k = 0; k < w; k++) ov.raw.push_back(uint8_t(f.value >> (8 * k)));
-          }
-          if (f.kind == F::EntrySize) continue;   // entry sizes are swept by the size-delta mutation
-          eo.overrides[fi] = ov;
-          Encoded e = ref_encode(*t.schema, v, eo);
-          bool nc = false, rj = false;
-          std::string how = fmt("field %zu (%s) prefix byte %02x", fi, fkind_name(f.kind), b);
-          std::string m = compare_with_reference(c, t, e.bytes, ht, true, how, &nc, &rj);
-          if (!m.empty()) {
-            c.rep.fail(m + "  [value " + to_text(*t.schema, v) + "]", "prop=C04 type=" + t.name + " src=sweep:" + std::to_string(vi) + ":" + std::to_string(fi) + ":" + std::to_string(b), "C04|" + t.name + "|" + m.substr(0, m.find(':')));
-            goto next_type;
-          }
-          if (nc || rj) c.rep.nontriv(bytes_hash(t, e.bytes));
+    size_t nvals = sweep_values(c, t);
+    bool failed = false;
+    for (size_t vi = 0; vi < nvals && !failed; vi++) {
+      Value v = sweep_value(c, t, vi);
+      size_t nf = std::min<size_t>(ref_encode(*t.schema, v).fields.size(), c.thorough ? 64 : 24);
+      for (size_t fi = 0; fi < nf && !failed; fi++) {
+        for (int b = 0; b < 256 && !failed; b++) {
+          bool in = false;
+          c.rep.current_case = "prop=C04 type=" + t.name + " src=sweep:" + std::to_string(vi) + ":" + std::to_string(fi) + ":" + std::to_string(b);
+          std::string m = sweep_one(c, t, vi, fi, b, &in);
+          if (!m.empty()) { c.rep.fail(m, c.rep.current_case, "C04|" + t.name + "|" + m.substr(0, m.find(':'))); failed = true; }
         }
         c.rep.label("prefix-sweep-fields");
       }
     }
-  next_type:;
   }
 }
 
